@@ -29,6 +29,10 @@ struct Rng {
 
 inline std::string hex64(uint64_t v) { char b[32]; snprintf(b, sizeof b, "%llx", (unsigned long long)v); return b; }
 
+// A check's seed is hashed before it seeds a generator: splitmix64 advances its state by a constant, so generator states derived
+// linearly from consecutive seeds (seed * stride + k) would replay the same case sequence shifted by one.
+inline uint64_t hashSeed(uint64_t seed) { Rng r(seed ^ 0x5EEDC0DE5EEDC0DEull); r.next(); return r.next(); }
+
 inline uint64_t argU64(int argc, char **argv, int i, uint64_t dflt) { return (i < argc) ? strtoull(argv[i], nullptr, 0) : dflt; }
 
 }
